@@ -40,6 +40,18 @@ pub struct Case {
     pub tape_b: Vec<u16>,
     pub loc_info: bool,
     pub ops: Vec<Op>,
+    /// all rule and terminal names in lower case (type and action identifiers then coincide)
+    #[serde(default)]
+    pub lower: bool,
+}
+
+fn text_of(tape: &[u16], lower: bool) -> String {
+    let s = gen::build_ast(tape);
+    if lower {
+        s.lowercased().render()
+    } else {
+        s.render()
+    }
 }
 
 #[derive(Clone, Debug, PartialEq, Eq)]
@@ -181,10 +193,10 @@ impl Prop for C18 {
             1 => Just(Op::RegenerateTwice),
             1 => Just(Op::ChangeGrammar),
         ];
-        (gen::g_ast(), gen::g_ast(), any::<bool>(), proptest::collection::vec(op, 0..9))
-            .prop_map(|(tape_a, tape_b, loc_info, mut ops)| {
+        (gen::g_ast(), gen::g_ast(), any::<bool>(), proptest::collection::vec(op, 0..9), prop::bool::weighted(0.3))
+            .prop_map(|(tape_a, tape_b, loc_info, mut ops, lower)| {
                 ops.push(Op::Regenerate);
-                Case { tape_a, tape_b, loc_info, ops }
+                Case { tape_a, tape_b, loc_info, ops, lower }
             })
             .boxed()
     }
@@ -198,7 +210,7 @@ impl Prop for C18 {
         600
     }
     fn rule(&self) -> String {
-        "case = AST-shape-rich generated grammar A (and B), builder_loc_info on/off, and a generated \
+        "case = AST-shape-rich generated grammar A (and B; in 30% all symbol names lower-cased so that type and action identifiers coincide), builder_loc_info on/off, and a generated \
          history of 1..9 operations interpreted on the real actions file: delete a random subset of \
          generated items (type alias / enum / choice struct / action fn), rewrite a function body, \
          rewrite a type, narrow the visibility of / add attributes to a generated function or type \
@@ -222,12 +234,15 @@ impl Prop for C18 {
         ]
     }
     fn describe(&self, case: &Case) -> Value {
-        json!({"grammar_a": gen::build_ast(&case.tape_a).render(), "grammar_b": gen::build_ast(&case.tape_b).render(),
+        json!({"grammar_a": text_of(&case.tape_a, case.lower), "grammar_b": text_of(&case.tape_b, case.lower),
                "loc_info": case.loc_info, "ops": describe_ops(&case.ops)})
     }
     fn check(&self, case: &Case, st: &mut Stats) -> Outcome {
-        let ta = gen::build_ast(&case.tape_a).render();
-        let tb = gen::build_ast(&case.tape_b).render();
+        let ta = text_of(&case.tape_a, case.lower);
+        let tb = text_of(&case.tape_b, case.lower);
+        if case.lower {
+            st.class("lower-case-symbol-names");
+        }
         let base = thread_dir("c18");
         let work = base.join("work");
         let fresh_a = match fresh_items(&base.join("fresh_a"), &ta, case.loc_info) {
